@@ -62,7 +62,16 @@ _BUILTINS: Dict[str, Callable[..., Any]] = {
 _BUILTINS['filter'] = lambda fn, it: [x for x in it if (x if fn is None else fn(x))]
 import posixpath as _pp
 _PATH_FUNCS: Dict[str, Callable[..., Any]] = {'os.path.split': _pp.split, 'os.path.normpath': _pp.normpath, 'os.path.basename': _pp.basename, 'os.path.dirname': _pp.dirname,
-                                               'os.path.splitext': _pp.splitext, 'os.path.join': _pp.join, 'posixpath.split': _pp.split, 'posixpath.normpath': _pp.normpath}
+                                               'os.path.splitext': _pp.splitext, 'os.path.join': _pp.join, 'os.path.abspath': lambda p_: _abs(p_), 'os.path.isabs': _pp.isabs, 'os.path.commonpath': _pp.commonpath,
+                                               'os.path.relpath': lambda p_, start: _pp.relpath(_abs(p_), _abs(start)), 'posixpath.split': _pp.split, 'posixpath.normpath': _pp.normpath}
+
+
+def _abs(p_: str) -> str:
+    if not p_.startswith('/'):
+        raise Unsupported('abspath of a relative path depends on the working directory')
+    return _pp.normpath(p_)
+
+
 _SAFE_METHODS = {
     set: {'add', 'discard', 'remove', 'copy', 'union', 'difference', 'intersection', 'issubset', 'update', 'pop', 'clear', '__contains__'},
     frozenset: {'union', 'difference', 'intersection', 'issubset', 'copy'},
@@ -440,8 +449,8 @@ class MiniEval:
         sub = MiniEval(env, self.funcs, self.methods)
         sub.fuel = self.fuel
         for g, v in self.env.items():
-            if g not in env and g.isupper():
-                sub.env[g] = v           # module constants passed down
+            if g not in env and (g.isupper() or isinstance(v, Obj) and g != 'self'):
+                sub.env[g] = v           # module constants (and module stand-ins such as `os`) passed down
         r = sub.run(fn.body)
         self.fuel = sub.fuel
         return r
